@@ -9,6 +9,8 @@
                       taken late)
      evict            the instance cache forgets everything (entries expire / are evicted in the real providers)
    answer "pos0" is a successful lookup of an instance that has no tags.
+   answer "err" is a failed lookup that leaves the cache holding an (older) instance for the source -- a cache that "never forgets good
+   data on error" (C12) answers nil and keeps what it had: the items that waited leave unchanged all the same (round-5 seeded change).
    The driver's epilogue serves every outstanding lookup, then expects the stage to be empty. *)
 EXTENDS Naturals, Sequences, TLC, Json
 CONSTANTS MaxLen, Sources
@@ -16,7 +18,7 @@ VARIABLE sched
 Ops == {[op |-> o, src |-> s, res |-> ""] : o \in {"m", "e"}, s \in Sources \cup {""}} \cup
        {[op |-> "mall", src |-> "", res |-> ""]} \cup       \* one batch with datapoints of every source and of no source
        {[op |-> o, src |-> "", res |-> ""] : o \in {"take", "emit", "hold", "release", "evict"}} \cup
-       {[op |-> "answer", src |-> "", res |-> r] : r \in {"pos", "neg", "pos0"}}
+       {[op |-> "answer", src |-> "", res |-> r] : r \in {"pos", "neg", "pos0", "err"}}
 O(o, src, r) == [op |-> o, src |-> src, res |-> r]
 \* hand-written schedules for the situations the statement names and that need more steps than the exhaustive bound:
 \* items of a source arriving while the forwarding of its released items is still in flight and the cache has forgotten it
